@@ -275,11 +275,30 @@ EmitMove:
 
               wd.swap(var_id, cur_id, alt_id, out_id);
               cur.set_reg_id(out_id);
-              var.mark_done();
               alt_var.cur.set_reg_id(cur_id);
 
+              // A swap extends nothing: a variable whose destination type is wider than its source type is now in its final
+              // register, but not done yet - the next pass sign/zero extends it in place (as a same-register move does).
+              auto needs_extension = [](const Var& v) noexcept -> bool {
+                TypeId dt = v.out.type_id();
+                TypeId st = v.cur.type_id();
+                return dt != TypeId::kVoid && st != TypeId::kVoid && TypeUtils::size_of(dt) > TypeUtils::size_of(st);
+              };
+
+              if (!needs_extension(var)) {
+                var.mark_done();
+              }
+              else {
+                work_flags |= kWorkPending;
+              }
+
               if (alt_var.out.is_initialized()) {
-                alt_var.mark_done();
+                if (!needs_extension(alt_var)) {
+                  alt_var.mark_done();
+                }
+                else {
+                  work_flags |= kWorkPending;
+                }
               }
               work_flags |= kWorkDidSome;
             }
